@@ -167,7 +167,10 @@ func (r *procRunner) Start(context.Context) error {
 var lastRunnerPid atomic.Int64
 
 func (r *procRunner) Wait(context.Context) error { return r.cmd.Wait() }
-func (r *procRunner) Kill(context.Context) error {
+func (r *procRunner) Kill(ctx context.Context) error {
+	if err := ctx.Err(); err != nil { // a runner that honours the context it is given
+		return err
+	}
 	if r.cmd.Process != nil {
 		if err := r.cmd.Process.Kill(); err != nil && !errors.Is(err, os.ErrProcessDone) {
 			return err
@@ -518,6 +521,17 @@ func RunCell(c *Cell) (res *Result) {
 			}
 			clients[i].Kill()
 			record(op, t0, nil, strconv.FormatBool(clients[i].Exited()))
+		case "sameclient?": // Client() twice on the current client: the same protocol client?
+			a, e1 := clients[cur()].Client()
+			b, e2 := clients[cur()].Client()
+			switch {
+			case e1 != nil || e2 != nil:
+				record(op, t0, fmt.Errorf("Client(): %v / %v", e1, e2), "")
+			case a == b:
+				record(op, t0, nil, "same")
+			default:
+				record(op, t0, nil, "different")
+			}
 		case "cleanup": // plugin.CleanupClients(): kills every managed client of this host process
 			plugin.CleanupClients()
 			record(op, t0, nil, strconv.FormatBool(clients[cur()].Exited()))
@@ -785,6 +799,21 @@ func RunCell(c *Cell) (res *Result) {
 						cfg.Cmd.Env = append(cfg.Cmd.Env, k+"="+v)
 					}
 				}
+			}
+			if arg == "reuseok" {
+				// the same *ClientConfig first starts a real plugin successfully (a version is negotiated) ...
+				capture := cfg.RunnerFunc
+				cfg.RunnerFunc = nil
+				cfg.Cmd = mkCmd()
+				first := plugin.NewClient(cfg)
+				_, err := first.Start()
+				first.Kill()
+				if err != nil {
+					record(op, t0, fmt.Errorf("first (real) start with this configuration failed: %v", err), "")
+					continue
+				}
+				// ... and is then used for a second client whose launch is observed
+				cfg.Cmd, cfg.RunnerFunc = nil, capture
 			}
 			cl := plugin.NewClient(cfg)
 			cl.Start()
